@@ -103,6 +103,8 @@ type Driver struct {
 	// GCErrFatal: a GC cycle returning an error is a violation (C11 only; an
 	// error is not a content change)
 	GCErrFatal bool
+	// Ledger: freelist exactly-once oracle (C13)
+	Ledger *Ledger
 	// counters written from client tasks: fixed arrays, never maps (the map
 	// runtime reports to the race detector even from uninstrumented code)
 	cnames  [32]string
